@@ -129,6 +129,31 @@ package P
   end M2;
 end P;
 """, ["P.M1", "P.M2", "A.X"]),
+    # package constants (scalar, array, a record-like constant with an input member) pulled in through dotted
+    # references from classes that are instantiated as scalar and as array components
+    "pkgconst": ("""
+package P
+  model Rec
+    input Real a = 7001;
+    Real q;
+  equation
+    q = a;
+  end Rec;
+  constant Rec r;
+  constant Real g[2] = {7002, 2};
+  constant Real h = 7003;
+end P;
+model Sub
+  Real y;
+equation
+  y = P.r.a + P.g[1] + P.h;
+end Sub;
+model M
+  Sub s;
+  Sub t[2];
+  Real z = P.h + 7004;
+end M;
+""", ["M", "P.Rec", "Sub"]),
     "func": ("""
 function g
   input Real a;
